@@ -97,7 +97,7 @@ func (f *Divide) Call(s *slip.Scope, args slip.List, depth int) (quot slip.Objec
 				case slip.Complex:
 					quot = slip.Complex(complex(1, 0) / complex128(td))
 				}
-				return
+				return reduceNumber(quot)
 			}
 			continue
 		}
@@ -155,5 +155,5 @@ func (f *Divide) Call(s *slip.Scope, args slip.List, depth int) (quot slip.Objec
 			quot = slip.Complex(complex128(quot.(slip.Complex)) / complex128(ta))
 		}
 	}
-	return
+	return reduceNumber(quot)
 }
